@@ -25,6 +25,7 @@ func checkC20(c *Ctx) {
 	c.checkPresencePredicates()
 	c.checkEnumTables()
 	c.checkUidCodec()
+	c.checkChannelSpellingInverse()
 }
 
 type fieldRef struct {
